@@ -191,7 +191,7 @@ def run_scenario(sc) -> Result:
     base = history.scratch_base()
     root = os.path.join(base, f"{sc['seed']}-A")
     sched = sc["schedule"]
-    uni = Universe(root, Chooser(sched["seed"], mode=sched.get("mode", "seeded")), monitors=[recorder])
+    uni = Universe(root, Chooser(sched["seed"], mode=sched.get("mode", "seeded"), profile=sched.get("profile")), monitors=[recorder])
     w = uni.world
     judge = CleanJudge(uni, recorder, res)
     w.fs_listeners.append(judge)
@@ -204,7 +204,9 @@ def run_scenario(sc) -> Result:
             ap = os.path.join(root, path)
             nv += 1
             if op == "overwrite":
-                if os.path.isfile(ap):
+                if os.path.isfile(ap) and not os.path.islink(ap) and derive_seed(sc["seed"], "preserve", path, k) % 3 == 0:
+                    vops.append(("raw_replace_same_size", path))
+                elif os.path.isfile(ap):
                     vops.append(("raw_write", path, f"vandal:{path}:{k}:{nv}\n"))
             elif op == "delete":
                 vops.append(("raw_remove", path))
